@@ -1077,16 +1077,23 @@ class BootstrapElectionModel(BaseElectionModel):
             contest_indicator = pd.get_dummies(all_units["postal_code-district"])
             postal_code_indicator = pd.get_dummies(all_units["postal_code"])
 
+            # which contests get a random effect is decided by the expected units only, otherwise an unexpected unit
+            # (whose district is parsed from its id) could change the model for every other unit of its state
+            expected_units = all_units.iloc[: (n_train + n_test)]
+            expected_contest_indicator = contest_indicator.iloc[: (n_train + n_test)]
+
             # drop districts that are at-large districts for a state
-            postal_code_filter = all_units.groupby("postal_code")["postal_code-district"].nunique() > 1
+            postal_code_filter = expected_units.groupby("postal_code")["postal_code-district"].nunique() > 1
             valid_postal_codes = postal_code_filter[postal_code_filter].index
             valid_districts = (
-                all_units[all_units.postal_code.isin(valid_postal_codes)]["postal_code-district"].dropna().unique()
+                expected_units[expected_units.postal_code.isin(valid_postal_codes)]["postal_code-district"]
+                .dropna()
+                .unique()
             )
             contest_indicator_filtered = contest_indicator.loc[:, valid_districts]
 
             # drop contest indicators if there are fewer than 10 units in contest
-            contest_indicator_filtered = contest_indicator_filtered.loc[:, contest_indicator.sum(axis=0) > 10]
+            contest_indicator_filtered = contest_indicator_filtered.loc[:, expected_contest_indicator.sum(axis=0) > 10]
 
             self.aggregate_names = {
                 c: i
